@@ -1,11 +1,12 @@
 package km
 
 import (
-	"sort"
+	"strings"
 	_ "embed"
 	"encoding/json"
 	"go/token"
 	"go/types"
+	"sort"
 
 	"golang.org/x/tools/go/ssa"
 )
@@ -178,7 +179,6 @@ func computeFuncValues(p *Prog) {
 	}
 }
 
-
 var pinnedTypes = map[string]bool{}
 
 // devirt: full name of an interface method ("(pkg.I).M") -> the only implementation.
@@ -271,6 +271,26 @@ func computeDevirt(p *Prog) {
 				n++
 			}
 		}
+		if n == 0 {
+			// no type of the module implements it: a seam in front of a library type. The implementation is the
+			// one concrete type that is ever converted to the interface anywhere in the module.
+			seenT := map[string]types.Type{}
+			for _, fn := range p.AllFuncs {
+				for _, b := range fn.Blocks {
+					for _, in := range b.Instrs {
+						if mi, ok := in.(*ssa.MakeInterface); ok && types.Identical(mi.Type(), it.tn.Type()) {
+							seenT[types.TypeString(mi.X.Type(), nil)] = mi.X.Type()
+						}
+					}
+				}
+			}
+			if len(seenT) == 1 {
+				for _, t := range seenT {
+					impl = t
+					n = 1
+				}
+			}
+		}
 		if n != 1 {
 			continue
 		}
@@ -281,7 +301,7 @@ func computeDevirt(p *Prog) {
 			if sel == nil {
 				continue
 			}
-			if fn := p.SSA.MethodValue(sel); fn != nil && fn.Blocks != nil {
+			if fn := p.SSA.MethodValue(sel); fn != nil && (fn.Blocks != nil || fn.Pkg == nil || !strings.HasPrefix(fn.Pkg.Pkg.Path(), ModPath)) {
 				devirt[it.full+"\x00"+m.Name()] = fn
 			}
 		}
@@ -309,15 +329,7 @@ func computeDevirt(p *Prog) {
 		if pinnedField[key] {
 			return
 		}
-		var fn *ssa.Function
-		switch x := v.(type) {
-		case *ssa.Function:
-			fn = x
-		case *ssa.MakeClosure:
-			if len(x.Bindings) == 0 {
-				fn, _ = x.Fn.(*ssa.Function)
-			}
-		}
+		fn := plainFuncValue(v)
 		if fn == nil {
 			bad[key] = true
 			return
@@ -378,7 +390,18 @@ func devirtInvoke(c *ssa.CallCommon) *ssa.Function {
 func fieldFuncOf(v ssa.Value) *ssa.Function {
 	switch x := v.(type) {
 	case *ssa.Parameter:
-		return paramFunc[x]
+		if f := paramFunc[x]; f != nil {
+			return f
+		}
+		if mc := boundMethodParam(x); mc != nil {
+			if f, _ := mc.Fn.(*ssa.Function); f != nil {
+				if t := boundTarget(nil, f); t != nil {
+					return t
+				}
+				return f
+			}
+		}
+		return nil
 	case *ssa.UnOp:
 		if g, ok := x.X.(*ssa.Global); ok && x.Op == token.MUL {
 			return globalFunc[g]
